@@ -773,6 +773,8 @@ def eval_c20(case):
     container = case.get("container", "df")
     ev.labels.append("container=" + container)
     ev.labels.append("opts=" + ("+".join(k for k in ("head", "tail", "sample") if opts.get(k) is not None) or "none"))
+    if case.get("reserved_looking_label"):
+        ev.labels.append("reserved-looking-label")
     rows = list(zip(*[c["cells"] for c in table["columns"]]))
     dup_rows_in_P = P is not None and len({repr(rows[i]) for i in P}) != len(P)
     if dup_rows_in_P:
@@ -822,10 +824,34 @@ def eval_c20(case):
     return ev
 
 
+RESERVED_LOOKING = ["index", "row_nr", "literal", "count", "len", "check_output"]
+
+
+def rename_label(case, old, new):
+    """rename the (plain, non-regex) column `old` to `new` everywhere the case refers to it"""
+    for t in case["table"]["columns"]:
+        if t["name"] == old:
+            t["name"] = new
+    for c in case["spec"]["columns"]:
+        if c["name"] == old and not c.get("regex"):
+            c["name"] = new
+    if case["spec"].get("unique"):
+        case["spec"]["unique"] = [new if u == old else u for u in case["spec"]["unique"]]
+    for ch in case["spec"].get("checks") or []:
+        if ch.get("args", {}).get("column") == old:
+            ch["args"]["column"] = new
+
+
 @st.composite
 def strat_c20(draw):
     case = draw(strat_case(parsers="none", containers=("df", "df", "lf_full")))
     n = sp.table_nrows(case["table"])
+    if case["table"]["columns"] and not any(c.get("regex") for c in case["spec"]["columns"]) and draw(st.integers(0, 3)) == 0:
+        # a data column called what polars (or pandera) would call a helper column: the selection of rows must not
+        # depend on the labels of the data
+        old = draw(st.sampled_from([t["name"] for t in case["table"]["columns"]]))
+        rename_label(case, old, draw(st.sampled_from(RESERVED_LOOKING)))
+        case["reserved_looking_label"] = True
     opts = {}
     w = draw(st.integers(0, 2))
     if w in (0, 2):
